@@ -239,8 +239,9 @@ pub fn check_lifecycles(
             let want = model::expected_by(spec, k, &route.scope, t);
             if let Some(want) = want {
                 if x.v["by"].as_str() != Some(want.as_str()) {
+                    let sig = if model::fallible_reregistered_after_infallible(spec, &route.scope, t) { "wrong-constructor:fallible-reregistered-after-infallible" } else { "wrong-constructor" };
                     return Err((
-                        "wrong-constructor".into(),
+                        sig.into(),
                         format!(
                             "{}: {} received a {} built by {} but the blueprint designates {} (nearest enclosing registration wins, latest within a blueprint)",
                             ctx(),
